@@ -500,6 +500,12 @@ class Interp:
             return [val(TOP if v is None else v, st)]
         if isinstance(e, ast.Attribute):
             ch = attr_chain(e)
+            if ((ch and len(ch) >= 3) or (isinstance(e.value, ast.Call) and dotted(e.value.func) == "getattr")) and e.attr == "append" and getattr(d, "heap", False) and isinstance(e.ctx, ast.Load):
+                # obj.items.append taken as a value (handed on, called later): bound to the list that attribute holds
+                key = self._key_of(e.value, fr, st)
+                cur = st.get(key, None) if key is not None else None
+                if isinstance(cur, tuple) and cur[:1] == ("tuple",):
+                    return [val(("listappend", key), st)]
             if ch:
                 deep = getattr(d, "load_attr_interp", None)
                 if deep is not None:
@@ -1604,6 +1610,35 @@ class Interp:
             out.append(r)
         return out
 
+    def _forced_list(self, results, fr):
+        """Like _forced, for results whose value is a tuple of evaluated arguments: every lazy sequence among them is consumed."""
+        hook = getattr(self.domain, "force_sequence", None)
+        if hook is None:
+            return results
+        out = []
+        for r in results:
+            if r.kind != "val" or not isinstance(r.value, tuple):
+                out.append(r)
+                continue
+            cur = [((), r.state)]
+            failed = []
+            for v in r.value:
+                nxt = []
+                for acc, s_ in cur:
+                    got = hook(self, v, s_, fr) if isinstance(v, tuple) else None
+                    if got is None:
+                        nxt.append((acc + (v,), s_))
+                        continue
+                    for g in got:
+                        if g.kind == "exc":
+                            failed.append(g)
+                        else:
+                            nxt.append((acc + (g.value,), g.state))
+                cur = nxt
+            out.extend(failed)
+            out.extend(val(acc, s_) for acc, s_ in cur)
+        return out
+
     def _exact_elements(self, value):
         """Element values of an abstract sequence whose length and order are known, else None."""
         hook = getattr(self.domain, "iter_exact", None)
@@ -1793,7 +1828,7 @@ class Interp:
         f, _, bind_self = hit
         if not isinstance(f, FUNC_TYPES) or not any((dotted(dd) or "").split(".")[-1] == "contextmanager" for dd in f.decorator_list):
             return None
-        if getattr(f, "_module", None) is not getattr(fr.func, "_module", None) or f.args.vararg or f.args.kwarg or f.args.posonlyargs:
+        if getattr(f, "_module", None) is not getattr(fr.func, "_module", None) or f.args.kwarg or f.args.posonlyargs:
             return None
         own_stmts = []
         stack = list(f.body)
@@ -1835,7 +1870,7 @@ class Interp:
             self_param, params = params[0], params[1:]
         else:
             self_param = None
-        if len(call.args) > len(params):
+        if len(call.args) > len(params) and not f.args.vararg:
             return None
         # rename the helper's own names apart (its self stays the caller's self)
         tag = f"__cm{s.lineno}_{getattr(f, 'name', 'f')}_"
@@ -1908,6 +1943,10 @@ class Interp:
             if src is None:
                 return None
             prologue.append(ast.Assign(targets=[ast.Name(id=ren.get(p_, p_), ctx=ast.Store())], value=src))
+        if f.args.vararg:
+            # *names: the positional arguments beyond the named parameters, as a tuple
+            va = f.args.vararg.arg
+            prologue.append(ast.Assign(targets=[ast.Name(id=ren.get(va, va), ctx=ast.Store())], value=ast.Tuple(elts=list(call.args[len(params):]), ctx=ast.Load())))
         new = prologue + spliced
         for n in new:
             for sub in ast.walk(n):
